@@ -26,7 +26,7 @@ TIERS = {
     'C16': {'quick': {'runs': 2400, 'det': 48, 'sweeps': 15, 'max_seconds': 700},
             'thorough': {'runs': 60000, 'det': 512, 'sweeps': 400, 'max_seconds': 5000}},
     'C17': {'quick': {'runs': 6000, 'det': 48, 'fresh': 40, 'max_seconds': 700},
-            'thorough': {'runs': 400000, 'det': 512, 'fresh': 300, 'max_seconds': 5000}},
+            'thorough': {'runs': 150000, 'det': 512, 'fresh': 300, 'max_seconds': 5000}},
 }
 
 CTX = None          # set in the template before the pool forks
